@@ -456,21 +456,28 @@ func c05Exec(op string) (string, *Violation) {
 	switch f[0] {
 	case "ver":
 		doc := `{"elements":[]}`
+		want := ""
 		switch {
-		case strings.HasPrefix(f[1], "s:"):
+		case f[1] == "null":
+			doc = `{"version":null,"elements":[]}`
+		case strings.HasPrefix(f[1], "s:"), strings.HasPrefix(f[1], "e:"):
 			s, _ := unhx(f[1][2:])
-			b, _ := json.Marshal(s)
-			doc = `{"version":` + string(b) + `,"elements":[]}`
+			want = s
+			w := &jw{escapeAll: f[1][0] == 'e'} // e: every non-ASCII character and '/' written as an escape
+			doc = `{"version":` + w.str(s) + `,"elements":[]}`
 		case strings.HasPrefix(f[1], "n:"):
+			want = f[1][2:]
 			doc = `{"version":` + f[1][2:] + `,"elements":[]}`
 		}
 		o := &osm.OSM{}
 		if err := json.Unmarshal([]byte(doc), o); err != nil {
-			return "err", nil
+			return "err", &Violation{Signature: "json-version-decode-error", Text: err.Error() + "\n" + doc}
 		}
 		var v *Violation
-		if f[1] == "absent" && o.Version != "" {
-			v = &Violation{Signature: "json-version-placeholder", Text: fmt.Sprintf("decoding an osmjson document without a version key leaves Version = %q, not empty.\ndocument: %s", o.Version, doc)}
+		if (f[1] == "absent" || f[1] == "null") && o.Version != "" {
+			v = &Violation{Signature: "json-version-placeholder", Text: fmt.Sprintf("decoding an osmjson document without a version (absent or null) leaves Version = %q, not empty.\ndocument: %s", o.Version, doc)}
+		} else if o.Version != want {
+			v = &Violation{Signature: "json-version-not-as-written", Text: fmt.Sprintf("the version of the document decodes to %q, written %q.\ndocument: %s", o.Version, want, doc)}
 		}
 		return hx(o.Version), v
 	case "elems":
@@ -775,14 +782,21 @@ func c05Gen(r *Rng, tier string, emit func(string)) {
 		n = 8000
 	}
 	emit("ver absent")
+	emit("ver null")
+	emit("ver e:" + hx("0.6"))
 	emit("ver s:" + hx("0.6"))
 	emit("ver n:0.6")
 	for i := 0; i < n/3; i++ {
-		switch r.Intn(3) {
+		vs := []string{"0.6", "", "1", "0.60", "v<1>", "日本", "\"0.6\"", "0\\6", "a/b", "tab\there", "🚀"}
+		switch r.Intn(5) {
 		case 0:
 			emit("ver absent")
 		case 1:
-			emit("ver s:" + hx([]string{"0.6", "", "1", "0.60", "v<1>", "日本"}[r.Intn(6)]))
+			emit("ver null")
+		case 2:
+			emit("ver s:" + hx(vs[r.Intn(len(vs))]))
+		case 3:
+			emit("ver e:" + hx(vs[r.Intn(len(vs))]))
 		default:
 			emit("ver n:" + []string{"0.6", "1", "0.61", "6", "12.5", "0.7", "100"}[r.Intn(7)])
 		}
